@@ -46,7 +46,7 @@ JSignBuild(e) ==
        LET d == RefLeaseSet(r.ser) IN d.ok /\ d.consumed = Len(r.ser) /\ d.n = m.nleases /\ d.d.st = e.st, cls),
      R("C02", "signed_leaseset2_decodes_to_model", built /\ r.serok /\ e.fn = "NewLeaseSet2",
        LET d == RefLeaseSet2(r.ser) IN
-       d.ok /\ d.consumed = Len(r.ser) /\ d.nk = m.nkeys /\ d.nl = m.nleases /\ d.optPairs = SortPairs(m.pairs) /\ d.h.flags = m.flags /\ d.h.off = m.off, cls),
+       d.ok /\ d.consumed = Len(r.ser) /\ d.nk = m.nkeys + (IF "elgkeys" \in DOMAIN m THEN 1 ELSE 0) /\ d.nl = m.nleases /\ d.optPairs = SortPairs(m.pairs) /\ d.h.flags = m.flags /\ d.h.off = m.off, cls),
      R("C02", "signed_encrypted_leaseset_decodes_to_model", built /\ r.serok /\ e.fn = "NewEncryptedLeaseSet",
        LET d == RefEncryptedLeaseSet(r.ser) IN
        d.ok /\ d.consumed = Len(r.ser) /\ d.st = e.st /\ d.innerLen = m.innerlen /\ d.flags = m.flags /\ d.off = m.off
